@@ -45,6 +45,7 @@ func init() {
 			{Name: "literals", Run: runLiterals},
 			{Name: "lexerrors", Run: runLexErrors},
 			{Name: "regexmode", Run: runRegexMode},
+			{Name: "fileset", Run: runFileSet},
 			{Name: "deep", Run: runDeep},
 			{Name: "deepchild", Run: runDeepChild},
 			{Name: "earlyerrors", Run: runEarlyErrors},
